@@ -17,6 +17,18 @@ func headerDeps(s string) []string {
 	for _, m := range hdrDepRe.FindAllStringSubmatch(s, -1) {
 		out = appendUnique(out, m[1])
 	}
+	if strings.HasPrefix(s, "?") {
+		// an atom or value the rules have no name for: it depends on every
+		// request header whose name its text mentions
+		for _, h := range []string{hOrigin, hACRM, hACRH, hACRPN} {
+			if strings.Contains(s, "\""+h+"\"") {
+				out = appendUnique(out, h)
+			}
+		}
+		if strings.Contains(s, "param:r") && len(out) == 0 {
+			out = append(out, "<some request field>")
+		}
+	}
 	return out
 }
 
@@ -73,6 +85,7 @@ func checkC10(ctx *Ctx) *Result {
 	}
 	r.rule("R10.1", "pairwise non-interference: paths not distinguishable through Vary-listed headers have identical outcomes", 100)
 	r.rule("R10.2", "Vary is append-only (add, append to old value, or assign when absent)", 100)
+	r.rule("R10.5", "the Vary value handed to the wrapped handler is a fresh slice (Header.Add/Set of a string), never a shared one a handler could rewrite for later responses", 10)
 	r.rule("R10.4", "every request-derived value written to the response comes from a header named in the path's Vary", 100)
 	ci := ctx.CI1()
 	r.rule("CI-1", "allow-all ⇒ ¬credentialed ∧ no PNA mode (discharged on the validation path; used to prune contradictory paths)", 1)
@@ -113,6 +126,16 @@ func checkC10(ctx *Ctx) *Result {
 			}
 		}
 		r.check(good, "R10.4", desc, "", detail, 1)
+		// R10.5
+		if len(rp.Serves) > 0 {
+			good, detail = true, ""
+			for _, w := range rp.WritesTo(hVary) {
+				if !((w.Op == "add" || w.Op == "set") && strings.HasPrefix(w.Tag, "const(")) {
+					good, detail = false, "on a path that reaches the wrapped handler, Vary is installed as "+w.String()+": a handler rewriting it in place changes the Vary of later responses"
+				}
+			}
+			r.check(good, "R10.5", desc, "", detail, 1)
+		}
 		infos = append(infos, info{rp, vn, outcomeOf(rp)})
 	}
 	// R10.1
